@@ -1,7 +1,7 @@
 (* C17 correspondence: cases observed on the real db.Checkpointer by the Go harness
    (harness/db/verif_c17_test.go) are re-evaluated here on the model with vm_compute. *)
 From Coq Require Import String.
-From SG Require Export Base.Prelude Base.Bytes C20.SeqIdGen C20.SeqId C17.Checkpointer.
+From SG Require Export Base.Prelude Base.Bytes C20.SeqIdGen C20.SeqId C20.SeqIdCodec C17.Checkpointer C17.Persist.
 Open Scope N_scope.
 
 Inductive case :=
@@ -13,7 +13,16 @@ Inductive case :=
 | CPersist (thr : N) (ops : list op) (loc rem : list (option (list N)))
 (* exhaustive sub-tree: run [pre], then every operation sequence of length <= depth over [alpha]
    (depth-first, in the order of [alpha]); digest of all observables in visiting order *)
-| CDfs (thr : N) (alpha : list op) (pre : list op) (depth : N) (digest : N).
+| CDfs (thr : N) (alpha : list op) (pre : list op) (depth : N) (digest : N)
+(* a history of notifications, CheckpointNow calls with either store failing, restarts (a new Checkpointer
+   over the same two documents), deletions and foreign rewrites of the documents, status calls: after each
+   call (len(expectedSeqs), len(processedSeqs), local document, remote document, lastCheckpointSeq,
+   lastLocalCheckpointRevID, lastRemoteCheckpointRevID, the ten statistics, the reported status sequence).
+   A document is (generation of "_rev", config hash interned, last_sequence parsed or None for "") *)
+| CWorld (thr : N) (ops : list pop) (obs : list wobs)
+with wobs :=
+| WObs (lenE lenP : N) (loc rem : option (N * N * option seqid)) (last : seqid) (lrev rrev : N)
+       (st : list N) (status : option (option seqid)).
 
 Definition T (t l s : N) : seqid := mk t l s.
 
@@ -60,6 +69,28 @@ Fixpoint run_pre (thr : N) (st : state) (h : N) (ops : list op) : state * N :=
   | o :: r => let (st', ou) := step thr st o in run_pre thr st' (mix h (enc_out ou)) r
   end.
 
+Definition doc_eqb (d : store) (x : option (N * N * option seqid)) : bool :=
+  match d, x with
+  | None, None => true
+  | Some a, Some (r, h, q) => (d_rev a =? r) && (d_hash a =? h) && oseq_eqb (d_seq a) q
+  | _, _ => false
+  end.
+
+Definition stats_list (s : stats) : list N :=
+  [n_exp s; n_proc s; n_known s; n_set s; n_hit s; n_miss s; g_plen s; g_elen s; g_plen_post s; g_elen_post s].
+
+Definition wobs_eqb (sn : psnap) (x : wobs) : bool :=
+  match x with
+  | WObs le lp loc rem last lrev rrev st status =>
+      let w := ps_w sn in
+      let m := w_mem w in
+      (len (expected (m_st m)) =? le) && (len (processed (m_st m)) =? lp) &&
+      doc_eqb (w_loc w) loc && doc_eqb (w_rem w) rem &&
+      seqid_eqb (m_last m) last && (m_lrev m =? lrev) && (m_rrev m =? rrev) &&
+      list_eqb N.eqb (stats_list (m_stats m)) st &&
+      option_eqb (fun a b => oseq_eqb (option_map canon a) b) (ps_status sn) status
+  end.
+
 Definition check (c : case) : bool :=
   match c with
   | CRun thr ops obs => list_eqb2 obs_eqb (map s_out (run0 thr ops)) obs
@@ -69,6 +100,7 @@ Definition check (c : case) : bool :=
   | CDfs thr alpha pre depth digest =>
       let (st, h) := run_pre thr init 0 pre in
       dfs thr alpha (N.to_nat depth) st h =? digest
+  | CWorld thr ops obs => list_eqb2 wobs_eqb (prun0 thr ops) obs
   end.
 
 Definition mismatches (cs : list case) : list N := failing check cs.
